@@ -8,6 +8,28 @@ from rules import atomics_map
 
 FILE = "source/ring_buffer.c"
 RB = "aws_ring_buffer"
+def _order_name(f, P, n):
+    """the memory order an argument denotes: the enumerator itself, or a file-scope `static const enum aws_memory_order`
+    object initialised with one (never written: it is const)"""
+    x = RU.uncast(f, n)
+    if x is not None and x["k"] == "int" and x.get("name") not in ORDER_BY_VALUE:
+        # (the front end folds a const object of enumeration type into its value and keeps the object's name)
+        for k, val in ORDER_BY_VALUE.items():
+            if val == x.get("v"):
+                return k
+    if x is not None and x["k"] == "var" and x.get("sc") in ("global", "slocal") and P is not None:
+        g = P.globals.get(x["n"]) or {}
+        if g.get("const") and isinstance(g.get("init"), dict):
+            if g["init"].get("name"):
+                return g["init"]["name"]
+            v = g["init"].get("int")
+            for k, val in ORDER_BY_VALUE.items():
+                if v is not None and P.enums.get(k, val) == v:
+                    return k
+    return f.show(n)
+
+
+ORDER_BY_VALUE = {"aws_memory_order_relaxed": 0, "aws_memory_order_acquire": 2, "aws_memory_order_release": 3, "aws_memory_order_acq_rel": 4, "aws_memory_order_seq_cst": 5}
 ORDER = {"aws_memory_order_relaxed": 0, "aws_memory_order_acquire": 2, "aws_memory_order_release": 3, "aws_memory_order_acq_rel": 4, "aws_memory_order_seq_cst": 5}
 
 DECIDED = [
@@ -219,13 +241,13 @@ def analyse(ctx, replace=None, only=None):
             R.check(name in allowed.get(x["f"], set()), "SINGLE-WRITER", "%s-stored-in:%s" % (x["f"], name), where(f, e), "%s stored by its owner" % x["f"],
                     "%s is stored by %s: the single-writer discipline of the ring is broken" % (x["f"], name))
             if x["f"] == "tail" and name != "aws_ring_buffer_init":
-                o = f.show(RU.arg(f, e.node, 2)) if len(e.node["a"]) > 2 else "aws_memory_order_seq_cst"
+                o = _order_name(f, P, RU.arg(f, e.node, 2)) if len(e.node["a"]) > 2 else "aws_memory_order_seq_cst"
                 R.check(ORDER.get(o, -1) >= 3, "MEMORY-ORDER", "tail-store:%s" % name, where(f, e), "tail stored with %s" % o,
                         "tail is stored with %s: the acquirer may see the new tail before the releaser's last use of the buffer" % o)
         for e in f.calls({"aws_atomic_load_ptr_explicit", "aws_atomic_load_ptr"}):
             x = RU.strip_addr(f, RU.arg(f, e.node, 0))
             if x is not None and x["k"] == "member" and x.get("rec") == RB and x["f"] == "tail" and name.startswith("aws_ring_buffer_acquire"):
-                o = f.show(RU.arg(f, e.node, 1)) if len(e.node["a"]) > 1 else "aws_memory_order_seq_cst"
+                o = _order_name(f, P, RU.arg(f, e.node, 1)) if len(e.node["a"]) > 1 else "aws_memory_order_seq_cst"
                 R.check(ORDER.get(o, -1) in (2, 4, 5), "MEMORY-ORDER", "tail-load:%s" % name, where(f, e), "tail loaded with %s" % o,
                         "tail is loaded with %s: the acquirer may hand out memory the releaser is still reading" % o)
     R.require(n >= 8, "only %d head/tail stores found" % n)
